@@ -29,11 +29,14 @@ type FetchOptions struct {
 }
 
 func toMultihash(ctx context.Context, services coreiface.CoreAPI, log *IPFSLog) (cid.Cid, error) {
-	if log.RawHeads().Len() == 0 {
+	// a single read of the log: the emptiness check and the manifest are
+	// taken from the same state
+	jsonLog := log.ToJSONLog()
+	if len(jsonLog.Heads) == 0 {
 		return cid.Undef, errmsg.ErrEmptyLogSerialization
 	}
 
-	return log.io.Write(ctx, services, log.ToJSONLog(), nil)
+	return log.io.Write(ctx, services, jsonLog, nil)
 }
 
 func fromMultihash(ctx context.Context, services coreiface.CoreAPI, hash cid.Cid, options *FetchOptions, io iface.IO) (*Snapshot, error) {
